@@ -100,6 +100,12 @@ def run(prog, check):
                 fx_writers += 1
                 check.ob('C01.W', '%s::declares-FX(%s)' % (f.key, unparse(c.args[0])), ok, '%s:%d' % (f.module.rel, c.lineno),
                          'NET_* declared empty' if ok else 'NET_* given content outside the FX primitives', 'any cross-currency flow')
+    # the collections the traces range over are the current ones: no accessor hands back a remembered list
+    from ._common import accessors_not_memoised
+    for f_, attr_, ok_, why_ in accessors_not_memoised(prog):
+        check.saw(f_)
+        check.ob('C01.W', '%s::answers-for-current-objects%s' % (f_.key, '(%s)' % attr_ if attr_ else ''), ok_, f_.where, why_,
+                 'a sector created after the zone was first queried')
     # the ledger reads every AddTerm as one independent entry: the equation must keep its own copy of the term
     from ._common import addterm_private_copy
     at_, ok_ = addterm_private_copy(prog)
